@@ -2,7 +2,7 @@
 //! the image and inside the shape's bounds. The image buffer sits flush
 //! against a PROT_NONE page; cases are first screened in a forked child (a
 //! fault is observed as a signal), then re-run with a before/after diff.
-use rten_imageproc::{Line, Painter, Point, Polygon, Rect, draw_line, draw_polygon, fill_rect, stroke_rect};
+use rten_imageproc::{Line, Painter, Point, Polygon, Rect, RotatedRect, Vec2, draw_line, draw_polygon, fill_rect, stroke_rect};
 use rten_tensor::NdTensorViewMut;
 use vcommon::guard::{GuardPos, Guarded, in_child};
 use vcommon::*;
@@ -195,9 +195,20 @@ impl Op {
             if width <= 1 {
                 (h + w + 2) as f64
             } else {
-                let dy = (y1 as f64 - y0 as f64).abs() + width as f64 + 3.0;
-                let dx = (x1 as f64 - x0 as f64).abs() + width as f64 + 3.0;
-                dy * dx
+                // The polygon draw_line fills for a wide line, computed with
+                // the library's own public geometry exactly as drawing.rs does.
+                let c = wide_line_corners(y0, x0, y1, x1, width);
+                let (ys, xs) = (c.map(|p| p.0 as i64), c.map(|p| p.1 as i64));
+                let (dy, dx) = (ys.iter().max().unwrap() - ys.iter().min().unwrap(), xs.iter().max().unwrap() - xs.iter().min().unwrap());
+                if dx == 0 && dy > 0 {
+                    // zero-width polygon: FillIter needs 2^32 steps per row
+                    // (e.g. the vertical line (42,0)-(1,0) with width 2, whose
+                    // normalised direction is 0.99999994 so both sides
+                    // truncate to x=0: minutes of CPU, nothing drawn).
+                    f64::INFINITY
+                } else {
+                    (dy + 1) as f64 * (dx + 1) as f64
+                }
             }
         };
         match self {
@@ -233,21 +244,54 @@ impl Op {
     }
 }
 
+/// Corners (y, x) of the polygon that `draw_line` fills for `width > 1`
+/// (mirrors rten-imageproc/src/drawing.rs, using the same public functions).
+fn wide_line_corners(y0: i32, x0: i32, y1: i32, x1: i32, width: u32) -> [Pt; 4] {
+    let line = Line::from_endpoints(Point::from_yx(y0, x0), Point::from_yx(y1, x1)).to_f32();
+    let line_vec = Vec2::from_xy(line.width(), line.height());
+    let rrect = RotatedRect::new(line.center(), line_vec.perpendicular(), line_vec.length(), width as f32);
+    rrect.corners().map(|c| (c.y as i32, c.x as i32))
+}
+
 // ------------------------------------------------------------ execution
+
+/// Elements per guarded arena. The image buffer is the LAST `len` elements of
+/// the arena whose guard page is after the data, and the FIRST `len` elements
+/// of the arena whose guard page is before it, so it is always flush against
+/// the PROT_NONE page; the rest of the arena is slack that must stay untouched.
+const ARENA: usize = 4096;
 
 trait Px: Copy + PartialEq + Default + 'static {
     fn from_u8(v: u8) -> Self;
+    /// Run `f` with this thread's arena for the given guard position
+    /// (allocated once: mmap/mprotect per case dominated the run time).
+    fn with_arena<R>(pos: GuardPos, f: impl FnOnce(&mut Guarded<Self>) -> R) -> R;
 }
-impl Px for u8 {
-    fn from_u8(v: u8) -> u8 {
-        v
-    }
+
+macro_rules! impl_px {
+    ($t:ty, $name:ident, $conv:expr) => {
+        thread_local! {
+            static $name: std::cell::RefCell<Option<(Guarded<$t>, Guarded<$t>)>> = const { std::cell::RefCell::new(None) };
+        }
+        impl Px for $t {
+            fn from_u8(v: u8) -> $t {
+                $conv(v)
+            }
+            fn with_arena<R>(pos: GuardPos, f: impl FnOnce(&mut Guarded<$t>) -> R) -> R {
+                $name.with(|cell| {
+                    let mut b = cell.borrow_mut();
+                    let pair = b.get_or_insert_with(|| {
+                        let init = <$t as Px>::from_u8(7);
+                        (Guarded::new(ARENA, init, GuardPos::After), Guarded::new(ARENA, init, GuardPos::Before))
+                    });
+                    f(if pos == GuardPos::After { &mut pair.0 } else { &mut pair.1 })
+                })
+            }
+        }
+    };
 }
-impl Px for u32 {
-    fn from_u8(v: u8) -> u32 {
-        0x0101_0101 * v as u32
-    }
-}
+impl_px!(u8, ARENA_U8, |v: u8| v);
+impl_px!(u32, ARENA_U32, |v: u8| 0x0101_0101u32 * v as u32);
 
 struct Geometry {
     planes: usize,
@@ -310,13 +354,18 @@ fn pt(p: &Pt) -> Point {
 
 fn exec_t<T: Px>(c: &Case, pos: GuardPos) -> Exec {
     let g = geometry(c);
+    assert!(g.buf_len <= ARENA, "harness: arena too small");
+    T::with_arena(pos, |arena| exec_in(c, pos, &g, arena))
+}
+
+fn exec_in<T: Px>(c: &Case, pos: GuardPos, g: &Geometry, arena: &mut Guarded<T>) -> Exec {
     let init = T::from_u8(7);
-    let mut buf = Guarded::<T>::new(g.buf_len, init, pos);
+    let start = if pos == GuardPos::After { ARENA - g.buf_len } else { 0 };
     let mut ex = Exec::default();
     let mut yielded_outside = Vec::new();
     let mut yielded = 0usize;
     {
-        let data: &mut [T] = &mut buf.as_mut_slice()[g.offset.min(g.buf_len)..];
+        let data: &mut [T] = &mut arena.as_mut_slice()[start..start + g.buf_len][g.offset.min(g.buf_len)..];
         let r = catch(|| {
             let mut v3 = NdTensorViewMut::<T, 3>::from_data_with_strides([g.planes, c.h, c.w], data, g.strides).expect("harness: view construction");
             let val = T::from_u8(200);
@@ -361,11 +410,17 @@ fn exec_t<T: Px>(c: &Case, pos: GuardPos) -> Exec {
     }
     ex.yielded_outside = yielded_outside;
     ex.yielded = yielded;
-    for (i, v) in buf.as_slice().iter().enumerate() {
+    for (i, v) in arena.as_mut_slice().iter_mut().enumerate() {
         if *v != init {
-            match locate(c, &g, i) {
-                Some(p) => ex.changed.push(p),
-                None => ex.outside_view.push(i),
+            *v = init;
+            if i >= start && i < start + g.buf_len {
+                match locate(c, g, i - start) {
+                    Some(p) => ex.changed.push(p),
+                    None => ex.outside_view.push(i - start),
+                }
+            } else {
+                // arena slack outside the image buffer
+                ex.outside_view.push(usize::MAX - i);
             }
         }
     }
@@ -373,7 +428,8 @@ fn exec_t<T: Px>(c: &Case, pos: GuardPos) -> Exec {
 }
 
 pub fn exec(c: &Case, pos: GuardPos) -> Exec {
-    if std::env::var_os("IMGCHECK_TRACE").is_some() {
+    static TRACE: std::sync::OnceLock<bool> = std::sync::OnceLock::new();
+    if *TRACE.get_or_init(|| std::env::var_os("IMGCHECK_TRACE").is_some()) {
         eprintln!("exec {} img={}x{} {:?} wide={} cost={}", c.op.text(), c.h, c.w, c.lay, c.wide_elem, c.op.cost(c.h, c.w));
     }
     if c.wide_elem { exec_t::<u32>(c, pos) } else { exec_t::<u8>(c, pos) }
@@ -510,7 +566,7 @@ fn first_match(cands: &[Case], v: Verdict, forks: &mut i32) -> Option<usize> {
 
 fn shrink(mut c: Case, v: Verdict) -> Case {
     let extreme0 = c.op.extreme();
-    let mut forks = 150;
+    let mut forks = 100;
     let ok = |cand: &Case| cand.op.cost(cand.h, cand.w) <= MAX_COST && (!cand.op.extreme() || extreme0);
     for _round in 0..3 {
         let before = c.clone();
@@ -607,8 +663,121 @@ fn case_from_witness(w: &Json) -> Case {
     }
 }
 
+/// What one case did, computed entirely inside a child process.
+#[derive(Default, Debug, Clone)]
+struct Obs {
+    panic: Option<String>,
+    changed: usize,
+    yielded: usize,
+    fail: Option<(String, String)>,
+    stroke_outside_rect: bool,
+    painter_extra_channel: bool,
+}
+
+fn observe_case(c: &Case) -> Obs {
+    let mut o = Obs::default();
+    for pos in [GuardPos::After, GuardPos::Before] {
+        let ex = exec(c, pos);
+        if pos == GuardPos::After {
+            o.changed = ex.changed.len();
+            o.yielded = ex.yielded;
+            o.panic = ex.panic.as_ref().map(|m| panic_class(m));
+            if let Op::StrokeRect { t, l, b, r, .. } = c.op {
+                o.stroke_outside_rect = ex.changed.iter().any(|(_, y, x)| !(*y >= t as i64 && *y < b as i64 && *x >= l as i64 && *x < r as i64));
+            }
+            if let Op::Painter { .. } = c.op {
+                o.painter_extra_channel = ex.changed.iter().any(|(p, _, _)| *p >= 3);
+            }
+        }
+        if o.fail.is_none() {
+            if let Some(f) = judge(c, &ex) {
+                o.fail = Some((f.kind.to_string(), f.detail));
+            }
+        }
+    }
+    o
+}
+
+/// Fork; the child runs `f` for each case and streams one JSON line per case
+/// through a pipe. Returns the observations received and, if the child was
+/// killed, the signal: the case after the last received line is the one that
+/// was executing. The library code under test never runs in this process.
+fn observe_in_child(cases: &[&Case]) -> (Vec<Obs>, Option<i32>) {
+    unsafe {
+        let mut fds = [0i32; 2];
+        assert_eq!(libc::pipe(fds.as_mut_ptr()), 0, "pipe failed");
+        let pid = libc::fork();
+        assert!(pid >= 0, "fork failed");
+        if pid == 0 {
+            libc::close(fds[0]);
+            for c in cases {
+                let o = observe_case(c);
+                let line = format!(
+                    "{}\n",
+                    json!({"p": o.panic, "c": o.changed, "y": o.yielded, "f": o.fail.as_ref().map(|f| vec![f.0.clone(), f.1.clone()]), "s": o.stroke_outside_rect, "x": o.painter_extra_channel})
+                );
+                let b = line.as_bytes();
+                let mut off = 0;
+                while off < b.len() {
+                    let n = libc::write(fds[1], b[off..].as_ptr() as *const _, b.len() - off);
+                    if n <= 0 {
+                        libc::_exit(9);
+                    }
+                    off += n as usize;
+                }
+            }
+            libc::_exit(0);
+        }
+        libc::close(fds[1]);
+        let mut data: Vec<u8> = Vec::new();
+        let mut buf = [0u8; 65536];
+        loop {
+            let n = libc::read(fds[0], buf.as_mut_ptr() as *mut _, buf.len());
+            if n > 0 {
+                data.extend_from_slice(&buf[..n as usize]);
+            } else if n == 0 {
+                break;
+            } else if *libc::__errno_location() != libc::EINTR {
+                break;
+            }
+        }
+        libc::close(fds[0]);
+        let mut status = 0;
+        loop {
+            let r = libc::waitpid(pid, &mut status, 0);
+            if r == pid || (r < 0 && *libc::__errno_location() != libc::EINTR) {
+                break;
+            }
+        }
+        let sig = if libc::WIFSIGNALED(status) {
+            Some(libc::WTERMSIG(status))
+        } else if libc::WIFEXITED(status) && libc::WEXITSTATUS(status) == 0 {
+            None
+        } else {
+            Some(-1)
+        };
+        let mut out = Vec::new();
+        for line in String::from_utf8_lossy(&data).lines() {
+            let Ok(j) = serde_json::from_str::<Json>(line) else { break };
+            out.push(Obs {
+                panic: j["p"].as_str().map(|s| s.to_string()),
+                changed: j["c"].as_u64().unwrap_or(0) as usize,
+                yielded: j["y"].as_u64().unwrap_or(0) as usize,
+                fail: j["f"].as_array().map(|a| (a[0].as_str().unwrap_or("").to_string(), a[1].as_str().unwrap_or("").to_string())),
+                stroke_outside_rect: j["s"].as_bool().unwrap_or(false),
+                painter_extra_channel: j["x"].as_bool().unwrap_or(false),
+            });
+        }
+        (out, sig)
+    }
+}
+
+fn kind_static(k: &str) -> Option<&'static str> {
+    KINDS.iter().copied().find(|x| *x == k)
+}
+
 fn report(rep: &mut Report, c: &Case, v: Verdict, origin: &str, do_shrink: bool) {
-    // Shrinking forks a few hundred children: keep a few witnesses per
+    // Shrinking forks many children: keep a few witnesses per
     // (primitive, kind) and only count the rest.
     let vk = match v {
         Verdict::Fault(_) => "fault",
@@ -617,32 +786,21 @@ fn report(rep: &mut Report, c: &Case, v: Verdict, origin: &str, do_shrink: bool)
     };
     rep.count(&format!("violating_cases:draw:{}:{}", c.op.name(), vk));
     let key = format!("reported:{}:{}", c.op.name(), vk);
-    if do_shrink && *rep.counters.get(&key).unwrap_or(&0) >= 3 {
+    if do_shrink && *rep.counters.get(&key).unwrap_or(&0) >= 1 {
         rep.suppressed_violations += 1;
         return;
     }
     rep.count(&key);
     let sc = if do_shrink { shrink(c.clone(), v) } else { c.clone() };
-    let (kind, detail) = match verdict_in_child(&sc) {
-        Verdict::Fault(sig) => ("fault".to_string(), format!("the call died with signal {} (the image buffer lies against a PROT_NONE page: an access outside the buffer)", sig)),
-        Verdict::Fail(_) => {
-            // no fault in the child: safe to re-run here for the details
-            let mut d = None;
-            for pos in [GuardPos::After, GuardPos::Before] {
-                if let Some(f) = judge(&sc, &exec(&sc, pos)) {
-                    d = Some(f);
-                    break;
-                }
-            }
-            let f = d.expect("verdict reproduced in child but not in process");
-            (f.kind.to_string(), f.detail)
+    let (obs, sig) = observe_in_child(&[&sc]);
+    let (kind, detail) = match (obs.first(), sig) {
+        (Some(Obs { fail: Some((k, d)), .. }), None) => (k.clone(), d.clone()),
+        (_, Some(sig)) => ("fault".to_string(), format!("the call died with signal {} (the image buffer lies against a PROT_NONE page: an access outside the buffer)", sig)),
+        _ => {
+            rep.count("harness:shrunk_case_unreproducible");
+            return;
         }
-        Verdict::Clean => ("unreproducible".to_string(), "shrunk case did not reproduce".to_string()),
     };
-    if kind == "unreproducible" {
-        rep.count("harness:shrunk_case_unreproducible");
-        return;
-    }
     rep.violation(
         format!("C36|draw|{}|{}|img={}x{}|layout={}|elem={}", kind, sc.op.text(), sc.h, sc.w, lay_name(sc.lay), if sc.wide_elem { "u32" } else { "u8" }),
         format!("{} on a {}x{} image ({}): {}", sc.op.text(), sc.h, sc.w, lay_name(sc.lay), detail),
@@ -650,12 +808,13 @@ fn report(rep: &mut Report, c: &Case, v: Verdict, origin: &str, do_shrink: bool)
     );
 }
 
-/// In-process run of a case already known not to fault.
-fn observe(rep: &mut Report, c: &Case, origin: &str, do_shrink: bool) {
+/// Record what a child observed for one case.
+fn record(rep: &mut Report, c: &Case, o: &Obs, origin: &str, do_shrink: bool) {
     rep.eval();
     let name = c.op.name();
     rep.count(&format!("op:{}", name));
     rep.count(&format!("layout:{}", lay_name(c.lay)));
+    rep.add("guard_page_executions", 2);
     let extreme = c.op.extreme();
     if extreme {
         rep.count("extreme_coordinate_cases(|c|>2^30, bounds only counted)");
@@ -676,48 +835,67 @@ fn observe(rep: &mut Report, c: &Case, origin: &str, do_shrink: bool) {
     } else {
         rep.count("shape_empty(zero_or_negative_extent_or_width_0)");
     }
-    let mut failed = false;
-    for pos in [GuardPos::After, GuardPos::Before] {
-        let ex = exec(c, pos);
-        rep.count("guard_page_executions");
-        if pos == GuardPos::After {
-            rep.add("pixels_changed", ex.changed.len() as u64);
-            if ex.changed.is_empty() {
-                rep.count("cases_changing_no_pixel");
-            }
-            if let Some(msg) = &ex.panic {
-                rep.count(&format!("no_result_panic:{}:{}", name, panic_class(msg)));
-                if !ex.changed.is_empty() {
-                    rep.count("panicked_after_partial_drawing");
-                }
-            }
-            rep.add("fill_iter_points_yielded", ex.yielded as u64);
-            // strict readings, counted only
-            if let Op::StrokeRect { t, l, b, r, .. } = c.op {
-                let strict_out = ex.changed.iter().filter(|(_, y, x)| !(*y >= t as i64 && *y < b as i64 && *x >= l as i64 && *x < r as i64)).count();
-                if strict_out > 0 {
-                    rep.count("observed:stroke_rect_drew_outside_rect_itself(within_stroke_width)");
-                }
-            }
-            if let Op::Painter { .. } = c.op {
-                if ex.changed.iter().any(|(p, _, _)| *p >= 3) {
-                    rep.count("observed:painter_changed_channel_beyond_rgb");
-                }
-            }
+    rep.add("pixels_changed", o.changed as u64);
+    if o.changed == 0 {
+        rep.count("cases_changing_no_pixel");
+    }
+    if let Some(msg) = &o.panic {
+        rep.count(&format!("no_result_panic:{}:{}", name, msg));
+        if o.changed > 0 {
+            rep.count("panicked_after_partial_drawing");
         }
-        if let Some(f) = judge(c, &ex) {
-            if extreme && f.kind != "write_outside_image" {
-                rep.count(&format!("extreme_coordinate_disagreement:{}:{}", name, f.kind));
-                break;
-            }
-            if !failed {
-                failed = true;
-                report(rep, c, Verdict::Fail(f.kind), origin, do_shrink);
-            }
+    }
+    rep.add("fill_iter_points_yielded", o.yielded as u64);
+    if o.stroke_outside_rect {
+        rep.count("observed:stroke_rect_drew_outside_rect_itself(within_stroke_width)");
+    }
+    if o.painter_extra_channel {
+        rep.count("observed:painter_changed_channel_beyond_rgb");
+    }
+    if let Some((k, _)) = &o.fail {
+        if extreme && k != "write_outside_image" {
+            rep.count(&format!("extreme_coordinate_disagreement:{}:{}", name, k));
+        } else if let Some(ks) = kind_static(k) {
+            report(rep, c, Verdict::Fail(ks), origin, do_shrink);
         }
     }
     if rep.wants_sample() && rep.evaluations % 997 == 0 {
-        rep.sample(|| json!({"op": c.op.text(), "image": format!("{}x{}", c.h, c.w), "layout": lay_name(c.lay)}));
+        rep.sample(|| json!({"op": c.op.text(), "image": format!("{}x{}", c.h, c.w), "layout": lay_name(c.lay), "pixels_changed": o.changed, "panicked": o.panic.is_some()}));
+    }
+}
+
+/// Run cases in children, attributing a dead child to the case it was
+/// executing, until every case has been observed or reported.
+fn run_cases(rep: &mut Report, batch: &[(Case, String)], do_shrink: bool) {
+    let mut next = 0;
+    while next < batch.len() {
+        let refs: Vec<&Case> = batch[next..].iter().map(|(c, _)| c).collect();
+        let (obs, sig) = observe_in_child(&refs);
+        rep.count("observation_children");
+        for (i, o) in obs.iter().enumerate() {
+            let (c, origin) = &batch[next + i];
+            record(rep, c, o, origin, do_shrink);
+        }
+        next += obs.len();
+        if let Some(sig) = sig {
+            if next >= batch.len() {
+                rep.count("harness:child_died_after_last_case");
+                break;
+            }
+            // the child died while executing batch[next]: confirm alone
+            let (c, origin) = &batch[next];
+            match verdict_in_child(c) {
+                Verdict::Fault(s2) => {
+                    rep.eval();
+                    rep.count(&format!("op:{}", c.op.name()));
+                    report(rep, c, Verdict::Fault(s2), origin, do_shrink);
+                }
+                _ => {
+                    rep.count(&format!("harness:child_death_not_reproduced(signal {})", sig));
+                }
+            }
+            next += 1;
+        }
     }
 }
 
@@ -727,10 +905,7 @@ pub fn replay(rep: &mut Report, w: &Json) {
         rep.inconclusive = Some("replay: case too expensive".into());
         return;
     }
-    match verdict_in_child(&c) {
-        Verdict::Fault(sig) => report(rep, &c, Verdict::Fault(sig), "replay", false),
-        _ => observe(rep, &c, "replay", false),
-    }
+    run_cases(rep, &[(c, "replay".to_string())], false);
 }
 
 // ------------------------------------------------------------ generation
@@ -801,7 +976,7 @@ fn gen_case(rng: &mut Rng) -> Case {
 
 pub fn run(rep: &mut Report, args: &Args) {
     let mut rng = Rng::derive(args.seed, 0xD36 + args.shard as u64);
-    let n = args.budget(40_000, 4_000_000);
+    let n = args.budget(16_000, 1_600_000);
     const BATCH: usize = 128;
     let mut done = 0u64;
     let mut case_no = 0u64;
@@ -813,7 +988,7 @@ pub fn run(rep: &mut Report, args: &Args) {
             if c.op.cost(c.h, c.w) > MAX_COST {
                 rep.count("generated_but_skipped_too_expensive");
                 if c.op.cost(c.h, c.w).is_infinite() {
-                    rep.count("observed:fill_iter_zero_width_polygon_not_run(2^32_steps_per_row)");
+                    rep.count(&format!("observed:{}_zero_width_polygon_not_run(FillIter_needs_2^32_steps_per_row)", c.op.name()));
                 }
                 if case_no > 20 * n + 1000 {
                     break;
@@ -826,42 +1001,11 @@ pub fn run(rep: &mut Report, args: &Args) {
             break;
         }
         done += batch.len() as u64;
-        // 1. fault screening of the whole batch in one child
-        let screened = in_child(|| {
-            for (c, _) in &batch {
-                for pos in [GuardPos::After, GuardPos::Before] {
-                    let _ = exec(c, pos);
-                }
-            }
-            0
-        });
-        rep.count("fault_screening_children");
-        let mut faulting: Vec<usize> = Vec::new();
-        if screened != Ok(0) {
-            rep.count("batches_rescreened_case_by_case");
-            for (i, (c, origin)) in batch.iter().enumerate() {
-                if let Verdict::Fault(sig) = verdict_in_child(c) {
-                    faulting.push(i);
-                    rep.eval();
-                    rep.count(&format!("op:{}", c.op.name()));
-                    report(rep, c, Verdict::Fault(sig), origin, true);
-                }
-            }
-            if faulting.is_empty() {
-                // the batch died but no single case does: not attributable
-                rep.count("harness:batch_fault_not_attributable");
-            }
-        }
-        // 2. observation in this process
-        for (i, (c, origin)) in batch.iter().enumerate() {
-            if faulting.contains(&i) {
-                continue;
-            }
-            observe(rep, c, origin, true);
-        }
+        run_cases(rep, &batch, true);
     }
     rep.add("drawing_cases", done);
-    if *rep.counters.get("harness:batch_fault_not_attributable").unwrap_or(&0) > 0 && rep.inconclusive.is_none() {
-        rep.inconclusive = Some("a screening child died but no single case reproduced the fault".into());
+    let unattributed: u64 = rep.counters.iter().filter(|(k, _)| k.starts_with("harness:child_d")).map(|(_, v)| *v).sum();
+    if unattributed > 0 && rep.inconclusive.is_none() {
+        rep.inconclusive = Some("an observation child died but the fault did not reproduce on the single case".into());
     }
 }
